@@ -1,6 +1,6 @@
 \* S2C generator: every case of the quick menu with the outcomes the specification accepts
 CONSTANTS DSpan = 12
-          NDay = 14
+          NDay = 7
           MJMax = 13
           MYears = {2000}
 INIT Init
